@@ -68,7 +68,8 @@ GroupVerdict(w, s, hist, groups, g) ==
       known == Known(s)
       \* (no order is predicted in the ambiguous corner)
       \* overlapped update calls ("par") leave the order inside the host lists open: no order predicted
-      overlapped == \E k \in 1 .. Len(hist) : hist[k].op = "par"
+      \* ("conc": calls made at the same moment from several goroutines)
+      overlapped == \E k \in 1 .. Len(hist) : hist[k].op \in {"par", "conc"}
       drift == (IF ~amb /\ ~overlapped /\ \E i \in 1 .. n : Rest(cx, grp.picks[i]) # Rest(cx, Offer(w, s, cx, base + i)) THEN {"order"} ELSE {}) \cup
                (IF \E i \in 1 .. n : \E k \in 1 .. Len(grp.picks[i]) : grp.picks[i][k] # 0 /\ grp.picks[i][k] \notin known
                 THEN {"offers-unknown-host"} ELSE {})
